@@ -104,7 +104,8 @@ def gen_repo(rng):
                         site = "union"
                     edges.append((full, dst, site, sp))
                 else:
-                    f["type"] = rng.choice(["int", "string", "boolean", {"type": "array", "items": "long"}, ["null", "double"]])
+                    f["type"] = rng.choice(["int", "string", "boolean", {"type": "array", "items": "long"}, ["null", "double"],
+                                            {"type": "string"}, {"type": "map", "values": {"type": "bytes"}}, ["null", {"type": "long"}]])
                 fields.append(f)
             js["fields"] = fields
         types[full] = js
